@@ -117,6 +117,14 @@ thread_local! {
     });
 }
 
+static LOCK_SEQ: std::sync::atomic::AtomicU64 = std::sync::atomic::AtomicU64::new(0);
+
+/// Next value of a process-wide counter. Called while holding the configuration mutex, it
+/// numbers the acquisitions of that mutex in the order in which they happened.
+pub fn next_lock_seq() -> u64 {
+    LOCK_SEQ.fetch_add(1, std::sync::atomic::Ordering::SeqCst) + 1
+}
+
 /// Install (or remove) the tracer callback of the calling thread
 pub fn set_tracer(tracer: Option<Box<dyn FnMut(&Event)>>) {
     STATE.with(|st| st.borrow_mut().tracer = tracer);
